@@ -143,6 +143,13 @@ def remaining (stored ttl : Int) (cutUntil : Deadline) (now : Int) : Int :=
   | none => rem
   | some c => if c - now < rem then c - now else rem
 
+/-- `Store.ReplaceIfCurrent` (the prefetch write-back): the CAS stays within one
+sub-cache (`samePartition`: claimed entry and refresh both answer-like, or both
+SERVFAIL); the replacement carries the REFRESH's cut and identity verbatim,
+whatever kind of answer (positive, NXDOMAIN, NODATA, SERVFAIL) it is. -/
+def replaceIfCurrent (samePartition : Bool) (cut : Deadline) (cutKey : Nat) : Option (Deadline × Nat) :=
+  if samePartition then some (cut, cutKey) else none
+
 /-! ### abstract event system of the descent
 
 Zones are names (labels root side first, `[]` is the root); an ancestor is a
